@@ -120,6 +120,7 @@ func rulesC14(w *World, r *Report) {
 		r.fnSeen(fnName(f))
 	}
 	w.ruleLocalIndexInRange(r, "C14.R8 element accesses of local containers are in range", 3)
+	w.ruleRecursionReadsStream(r, "C14.R9 every recursion on the decode path reads the stream", 3)
 	w.ruleLoopsProgress(r, "C14.R7 every loop on the decode path makes progress", 8, func(fn *ssa.Function) bool { return reach[fn] || reach[rootFn(fn)] })
 	// R1
 	w.ruleIndexGuardsPX(r, "C14.R1 table indices are guarded on both sides", nil)
